@@ -27,7 +27,7 @@ STUBS = ['script pool compiled natively with the current compiler; the failing s
 ASSUMPTIONS = ['SMT: an arity is rendered in canonical decimal (regex 0|[1-9][0-9]*), rendering is injective',
                'z3 queries carry a length bound of 12 on names; the cvc5 binary answers them unbounded']
 OUTSIDE = ['histories longer than stated', 'scripts outside the pool']
-BOUNDS = {'quick': 'histories of 3 operations (9 operation kinds, symbolic overwrite flags, 5 registration arities, symbolic fact value); SMT queries unbounded (cvc5) / len<=12 (z3)',
+BOUNDS = {'quick': 'all histories of 2 operations and histories of 3 operations after 12 selected prefixes (9 operation kinds, symbolic overwrite flags, 5 registration arities, symbolic fact value); SMT queries unbounded (cvc5) / len<=12 (z3)',
           'thorough': 'histories of 4 operations, partitioned on the first two'}
 EXPLANATION = ('CrossHair executes load/register/assert/clear histories with symbolic choices on the real engine and compares a battery of '
                'queries after every step with a list-of-definitions model; the key-collision questions are decided by SMT solvers over '
@@ -35,7 +35,7 @@ EXPLANATION = ('CrossHair executes load/register/assert/clear histories with sym
 
 SCRIPTS = [
     "p(1).\np(2) :- !.\np(3).\n",
-    "p(10).\np(11).\n",
+    "p(10).\np(11).\np(s) :- p(40).\n",        # the recursive call must resolve p/1 at call time (facts, other definitions)
     "p(20, 21).\n",
     "r(X) :- q(X).\n",
     "q(30).\nq(31).\n",
@@ -43,7 +43,7 @@ SCRIPTS = [
 # model of each script: {(name, arity): answers of that definition (cut already applied)}
 SCRIPT_DEFS = [
     {('p', 1): [(1,), (2,)]},
-    {('p', 1): [(10,), (11,)]},
+    {('p', 1): 'def1-recursive'},
     {('p', 2): [(20, 21)]},
     {('r', 1): 'calls-q'},
     {('q', 1): [(30,), (31,)]},
@@ -74,7 +74,7 @@ def py_def(kind):
             (pv, 0, ('p', 0), 'succeed-once'), (pv, 1, ('p', 1), 'succeed-once'), (pv, 2, ('p', 2), 'succeed-once')][kind]
 
 
-def battery(yp, meta=True):
+def battery(yp, meta=True, full=True):
     out = []
     for name, arity in BATTERY:
         vs = [yp.variable() for _ in range(arity)]
@@ -84,7 +84,7 @@ def battery(yp, meta=True):
             if len(rows) > 12:
                 break
         out.append(rows)
-    # the same goals through the meta-call builtins must resolve identically (late binding); probed after the last step
+    # the same goals through the meta-call builtins must resolve identically (late binding): call/2 after every step, findall/3 after the last
     for name, arity in ((('p', 1), ('r', 1)) if meta else ()):
         v = yp.variable()
         rows = []
@@ -94,6 +94,8 @@ def battery(yp, meta=True):
                 break
         if rows != out[BATTERY.index((name, arity))]:
             out.append(('call/2 on %s differs' % name, rows))
+        if not full:
+            continue
         L = yp.variable()
         n = 0
         for _ in yp.query('findall', [v, yp.functor(name, [v]), L]):
@@ -113,6 +115,23 @@ def model_battery(facts, defs):
         if chain is None:
             chain = defs.get((name, 'n'))
         for d in (chain or []):
+            if d == 'def1-recursive':
+                rows += [(10,), (11,)]
+                # p(s) :- p(40).   p(40) is looked up when the clause runs: dynamic facts and every definition of p/1
+                # ... once per solution of p(40)
+                n40 = 0
+                for r in facts.get(key, []):
+                    if r == (40,):
+                        n40 += 1
+                for d2 in (chain or []):
+                    if d2 == 'succeed-once':
+                        n40 += 1
+                    elif d2 not in ('def1-recursive', 'calls-q'):
+                        for r in d2:
+                            if r == (40,):
+                                n40 += 1
+                rows += [('s',)] * n40
+                continue
             if d == 'calls-q':
                 rows += answers(('q', 1))
             elif d == 'succeed-once':
@@ -178,7 +197,7 @@ def make_body(steps, info):
                 else:
                     yp.clear()
                     facts, defs = {}, {}
-                got = battery(yp, meta=(s == steps - 1))
+                got = battery(yp, meta=True, full=(s == steps - 1))
             except Exception as e:
                 ch.note(info, 'step %d (%s) raised %s: %s', s, opname, type(e).__name__, str(e)[:150])
                 return ch.VIOLATED
@@ -292,6 +311,8 @@ def units(tier, seed):
     us = []
     steps = 3 if tier == 'quick' else 4
     depth = 2
+    quick_prefixes = [('load0', 'load1'), ('load1', 'load0'), ('register', 'load1'), ('load1', 'register'), ('load1', 'assert'), ('assert', 'load1'),
+                      ('loadfail', 'load1'), ('load3', 'load4'), ('load4', 'load3'), ('clear', 'load1'), ('load1', 'clear'), ('register', 'register')]
     import itertools
     reg = OPS.index('register')
     combos = []
@@ -302,6 +323,12 @@ def units(tier, seed):
                 combos.append((combo, dict(fx, kind0=k0), '.kind%d' % k0))
         else:
             combos.append((combo, fx, ''))
+    if tier == 'quick':
+        # all histories of 2 operations (partitioned on the first), and 3 operations after selected prefixes
+        for op in range(len(OPS)):
+            us.append(dict(id='a.2step.' + OPS[op], kind='a', steps=2, fixed={'op0': op}, ob='C08.a', timeout=300, weight=60,
+                           bounds='history of 2 operations starting with %s' % OPS[op]))
+        combos = [c for c in combos if (OPS[c[0][0]], OPS[c[0][1]]) in quick_prefixes]
     for combo, fx, tag in combos:
         us.append(dict(id='a.' + '-'.join(OPS[c] for c in combo) + tag, kind='a', steps=steps, fixed=fx, ob='C08.a',
                        timeout=300 if tier == 'quick' else 1500, weight=60,
